@@ -46,6 +46,8 @@ impl StringMap {
         for (key, value) in &self.0 {
             lines.push(format!("{}={}", key, value));
         }
+        #[cfg(anytls_verif)]
+        lines.sort();
         lines.join("\n").into_bytes()
     }
 
